@@ -374,6 +374,26 @@ def switch_info(body, nid):
             vals = {l: ({"true": "false", "false": "true"}.get(v, v)) for l, v in vals.items()}
             e = e.a[0]
             continue
+        if e.k == "bin" and is_bool and e.extra in ("Ne", "Ge", "Gt", "Le"):
+            # canonical comparisons: only Eq and Lt remain (DESIGN §4.6)
+            a0, b0 = e.a
+            flip = {"true": "false", "false": "true"}
+            if e.extra == "Ne":
+                vals = {l: flip.get(v, v) for l, v in vals.items()}
+                e = E("bin", [a0, b0], ty=e.ty, nid=e.nid, extra="Eq")
+            elif e.extra == "Ge":      # a >= b  ==  !(a < b)
+                vals = {l: flip.get(v, v) for l, v in vals.items()}
+                e = E("bin", [a0, b0], ty=e.ty, nid=e.nid, extra="Lt")
+            elif e.extra == "Gt":      # a > b   ==  b < a
+                e = E("bin", [b0, a0], ty=e.ty, nid=e.nid, extra="Lt")
+            elif e.extra == "Le":      # a <= b  ==  !(b < a)
+                vals = {l: flip.get(v, v) for l, v in vals.items()}
+                e = E("bin", [b0, a0], ty=e.ty, nid=e.nid, extra="Lt")
+            continue
+        if e.k == "bin" and is_bool and e.extra == "Eq" and repr(e.a[0].key()) > repr(e.a[1].key()):
+            e = E("bin", [e.a[1], e.a[0]], ty=e.ty, nid=e.nid, extra="Eq")
+            # fallthrough to break below (no further peeling of a comparison)
+            break
         if e.k == "discr":
             inner = e.a[0]
             names = enum_variants(prog, inner.ty)
@@ -551,6 +571,29 @@ def _expr_locals(e):
     return deps
 
 
+def _written_fields(body):
+    wf = getattr(body, "_wfields", None)
+    if wf is None:
+        wf = set()
+        for n in body.nodes:
+            d = None
+            if n.kind == "assign":
+                d = n.ev["dst"]
+            elif n.kind == "call":
+                d = n.ev["dest"]
+            if d is not None:
+                for p in d["p"]:
+                    if isinstance(p, dict) and "n" in p:
+                        wf.add(p["n"])
+            # a mutable borrow of a field may be written through
+            if n.kind == "assign" and n.ev.get("rv") in ("ref", "rawptr") and (n.ev.get("mut") or n.ev.get("rv") == "rawptr"):
+                for p in n.ev["pl"]["p"]:
+                    if isinstance(p, dict) and "n" in p:
+                        wf.add(p["n"])
+        body._wfields = wf
+    return wf
+
+
 def _immutable_root(body, e):
     """may two evaluations of this expression at different program points be
     assumed equal?  consts, never-reassigned arguments, non-atomic plain fields
@@ -567,6 +610,8 @@ def _immutable_root(body, e):
         if x.k == "field":
             ty = x.ty or ""
             if "Atomic" in ty or "Cell" in ty or "Mutex" in ty or "RwLock" in ty:
+                return False
+            if x.extra[1] in _written_fields(body):
                 return False
             continue
         return False
@@ -605,10 +650,12 @@ class PathSearch:
             if root.k == "local" and any(l == root.extra for (l, _) in self.vdefs.values()):
                 self._swkey[s] = ("var", root.extra)
                 continue
-            if root.k == "bin" and root.extra in ("Eq", "Ne", "Lt", "Le", "Gt", "Ge"):
+            if root.k == "bin" and root.extra in ("Eq", "Lt"):
                 x, y = root.a
                 if x.k == "local" and x.extra in self.counters and y.k == "const" and "val" in (y.extra or {}):
-                    self._cmpkey[s] = ("cmp", x.extra, root.extra, y.extra["val"])
+                    self._cmpkey[s] = ("cmp", x.extra, root.extra, y.extra["val"], "lc")
+                elif y.k == "local" and y.extra in self.counters and x.k == "const" and "val" in (x.extra or {}):
+                    self._cmpkey[s] = ("cmp", y.extra, root.extra, x.extra["val"], "cl")
             if not _immutable_root(b, root):
                 continue
             k = ("pred", root.key())
@@ -714,8 +761,8 @@ class PathSearch:
                     if ck is not None:
                         cur = dict(new_env).get(("ctr", ck[1]))
                         if cur is not None:
-                            t = {"Eq": cur == ck[3], "Ne": cur != ck[3], "Lt": cur < ck[3], "Le": cur <= ck[3],
-                                 "Gt": cur > ck[3], "Ge": cur >= ck[3]}[ck[2]]
+                            lhs, rhs = (cur, ck[3]) if ck[4] == "lc" else (ck[3], cur)
+                            t = (lhs == rhs) if ck[2] == "Eq" else (lhs < rhs)
                             v = switch_info(b, nid).edge_vals.get(label)
                             if v is not None and v != ("true" if t else "false"):
                                 continue
